@@ -829,7 +829,19 @@ def compare_levels(la, lb, mode):
             if mode == 'shape':
                 continue
             if nm == 'C':
-                if not np.array_equal(xa != 0, xb != 0):
+                pd_ = (xa != 0) != (xb != 0)
+                if pd_.any():
+                    # 'tol' mode compares hierarchies whose level matrices agree to rounding only (the block code path
+                    # sums in another order): an entry of A that is rounding noise in one hierarchy and an exact,
+                    # eliminated zero in the other is a connection in one strength pattern only
+                    if mode == 'tol' and 'A' in da and 'A' in db:
+                        Aa = da['A'][4] if da['A'][0] == 'sparse' else da['A'][3]
+                        Ab = db['A'][4] if db['A'][0] == 'sparse' else db['A'][3]
+                        if Aa.shape == pd_.shape == Ab.shape:
+                            sc = max(float(np.abs(Aa).max()), 1e-300)
+                            noise = (np.abs(Aa) <= 1e-9 * sc) & (np.abs(Ab) <= 1e-9 * sc)
+                            if not (pd_ & ~noise).any():
+                                continue
                     return f'level {i}: pattern of the strength matrix C differs'
                 continue
             if mode == 'content':
@@ -902,7 +914,8 @@ def classify_format(case, fmt, bs, ref_ok, got):
             and name_of(case['kw'].get('interpolation')) == 'one_point'):
         return K_BSR_SYM_VALUES        # symmetric strength: measure values for CSR, all ones for BSR; one-point
                                        # interpolation ranks the connections by those values
-    if (fmt == 'bsr' and bs == 1 and case['ctor'] in ('sa', 'rn') and got is None and name_of(case['kw'].get('strength')) == 'symmetric'
+    if (fmt == 'bsr' and bs == 1 and case['ctor'] in ('sa', 'rn') and got is None
+            and name_of(case['kw'].get('strength')) in ('symmetric', 'energy_based')
             and name_of(case['kw'].get('smooth')) == 'energy' and energy_filters_by_strength(case['kw'].get('smooth'))):
         return K_BSR_SYM_VALUES        # the same values select the sparsity pattern of energy smoothing when a pre-/post-filter
                                        # with theta > 0 is requested (filter_matrix_rows on the strength matrix)
@@ -2711,9 +2724,44 @@ def build_stream(ctx, rng, count, q, all_formats=False):
     flush_store(ctx, pending, q)
 
 
+def format_findings_corpus(ctx, q):
+    """fixed corpus, every run (no draw from ctx.rng / ctx.np_rng; the NumPy global state is put back): one concrete instance of
+    each listed BSR-versus-CSR finding, judged by eval_build_case / classify_format like every other build case --
+    rs-bsr-stored-zeros-are-connections: ruge_stuben_solver(strength='symmetric') on the 4 x 4 Poisson matrix stored as BSR 2x2 (the
+    zeros inside the blocks are connections for theta = 0; CSR input storing the same zeros gives the BSR hierarchy);
+    bsr-symmetric-strength-unit-values: air_solver(strength='symmetric', one-point interpolation) on an upwind stencil stored as BSR
+    1x1, and smoothed_aggregation_solver(strength='symmetric', energy smoothing with prefilter theta = 0.13) on a complex Hermitian
+    weighted graph Laplacian, n = 17, stored as BSR 1x1"""
+    state = np.random.get_state()
+    pending = []
+    tail = {'max_levels': 10, 'max_coarse': 3, 'keep': True}
+    cases = [({'ctor': 'rs', 'A': np.ascontiguousarray(stencil2d(4, 4) / 3.0), 'dtype': None, 'bs': 2,
+               'kw': {'strength': 'symmetric', 'CF': ('RS', {'second_pass': False}), 'interpolation': 'classical', **tail},
+               'seed': 7, 'tags': {'fam': 'p2', 'complex': False}}, ('bsr', 2)),
+             ({'ctor': 'air', 'A': np.ascontiguousarray(stencil2d(4, 4, eps=0.5, conv=2.0) * 0.7), 'dtype': None, 'bs': 1,
+               'kw': {'strength': 'symmetric', 'CF': ('RS', {'second_pass': True}), 'interpolation': 'one_point',
+                      'restrict': ('air', {'theta': 0.053, 'degree': 2}), 'filter_operator': None, **tail},
+               'seed': 7, 'tags': {'fam': 'upwind', 'complex': False}}, ('bsr', 1))]
+    r = np.random.default_rng(2)
+    H = gen.spd_matrix(r, 17, 'laplacian', complex_=True).toarray()
+    d = 1.0 + 0.37 * r.random(17)
+    H = np.ascontiguousarray(((d[:, None] * H) * d[None, :]) * (1.0 / 3.0))
+    cases.append(({'ctor': 'sa', 'A': H, 'dtype': None, 'bs': 1,
+                   'kw': {'symmetry': 'hermitian', 'strength': 'symmetric', 'aggregate': 'standard',
+                          'smooth': ('energy', {'krylov': 'cg', 'maxiter': 2, 'prefilter': {'theta': 0.13}}),
+                          'improve_candidates': None, 'max_levels': 2, 'max_coarse': 3, 'keep': True},
+                   'seed': 7, 'tags': {'fam': 'cherm', 'complex': True}}, ('bsr', 1)))
+    for case, fb in cases:
+        ctx.feat('format_findings_corpus')
+        eval_build_case(ctx, case, [fb], pending)
+    flush_store(ctx, pending, q)
+    np.random.set_state(state)
+
+
 def run(ctx):
     rng = ctx.np_rng
     q = LeanQueue()
+    format_findings_corpus(ctx, q)
     part_kind(ctx, q)
     part_cache(ctx, rng, ctx.scale(300, 8000), q)
     part_trace(ctx, rng, ctx.scale(60, 1500), q)
